@@ -90,7 +90,7 @@ def r1_bound(ck, cx, sh):
     # _transact sends once
     tr = cx.method(tm, '_transact')
     ck.saw('functions', tr.qn)
-    for p in cx.enum(tr, tm, max_depth=0):
+    for p in cx.enum(tr, tm, resolver=cx.tx_helper_resolver(), max_depth=1):
         sends = [e for e in p.ev if e.kind == 'call' and callee_name(e.node) == '_send']
         ck.ob('R1', tr.qn, '_transact transmits at most once', len(sends) <= 1, detail='sends-per-transact %d' % len(sends), loc=cx.floc(tr))
     # configured value reaches the loop unmodified
@@ -226,7 +226,7 @@ def r3_escape(ck, cx, sh):
                 return sorted(esc_leaf[n])
         return []
     esc_tr = {}
-    for p in cx.enum(tr, tm, resolver=none, may_raise=may_tr, max_depth=0):
+    for p in cx.enum(tr, tm, resolver=cx.tx_helper_resolver(), may_raise=may_tr, max_depth=1):
         if p.exit and p.exit[0] == 'exc':
             src = [e for e in p.ev if e.kind == 'raise']
             callee = callee_name(src[-1].node) if src else '?'
@@ -313,7 +313,7 @@ def r4_state(ck, cx, sh):
             return ['socket.error', 'ModbusIOException', 'InvalidMessageReceivedException']
         return []
     nh = 0
-    for p in cx.enum(tr, tm, resolver=lambda c, fr, pa: None, may_raise=may_fault, max_depth=0):
+    for p in cx.enum(tr, tm, resolver=cx.tx_helper_resolver(), may_raise=may_fault, max_depth=1):
         annotate(p, heap=False)
         hev = [i for i, e in enumerate(p.ev) if e.kind == 'handler']
         if not hev:
@@ -324,9 +324,11 @@ def r4_state(ck, cx, sh):
         ck.ob('R4', tr.qn, 'handler of %s closes the client (next call reconnects)' % exc, bool(closes), detail='handler-does-not-close', loc=cx.floc(tr, p.ev[hev[0]].node),
               message='_transact swallows a transport fault (%s) without closing the connection: a late reply can be read by the next transaction' % exc)
     ck.ob('R4', tr.qn, 'transport faults are handled inside _transact', nh > 0, detail='no-fault-handler-path', loc=cx.floc(tr))
-    for h in hs:
-        from ..paths import handler_names
-        names = handler_names(h)
+    from ..paths import handler_names
+    # the handlers of one try statement together (one clause per class or one clause for all): each fault class is caught by some clause
+    for t_ in [t for t in ast.walk(tr.node) if isinstance(t, ast.Try) and t.handlers]:
+        names = [nm for h in t_.handlers for nm in handler_names(h)]
+        h = t_.handlers[0]
         for need in ('socket.error', 'ModbusIOException', 'InvalidMessageReceivedException'):
             ck.ob('R4', tr.qn, '%s is handled in _transact' % need, any(cx.hier.caught_by(need, [nm]) for nm in names),
                   detail='unhandled %s' % need, loc=cx.floc(tr, h))
